@@ -214,6 +214,7 @@ type O16 struct {
 	Val  []int   `json:"val"`
 	RA   int64   `json:"ra"`
 	Err  string  `json:"err"`
+	hit  bool
 }
 
 // ---- real side ---------------------------------------------------------------------------------
@@ -506,6 +507,19 @@ func sortedByName(fs [][2]int) [][2]int {
 	return out
 }
 
+// andJ mirrors clause.And: no expression -> nothing, one -> itself, several -> AndConditions
+func andJ(l []interface{}) []interface{} {
+	switch len(l) {
+	case 0:
+		return []interface{}{}
+	case 1:
+		return l
+	}
+	return []interface{}{[]interface{}{"and", l}}
+}
+
+// condsJ = the expressions one Where(...) call appends to Clauses["WHERE"].Exprs, in the shape
+// statement.go BuildCondition produces them (it returns `[]Expression{clause.And(conds...)}`)
 func (w *W16) condsJ() []interface{} {
 	var out []interface{}
 	switch w.Form {
@@ -515,10 +529,12 @@ func (w *W16) condsJ() []interface{} {
 				out = append(out, []interface{}{"eq", f[0], f[1]})
 			}
 		}
+		return andJ(out)
 	case "map":
 		for _, f := range sortedByName(w.Fields) {
 			out = append(out, []interface{}{"eq", f[0], f[1]})
 		}
+		return andJ(out)
 	case "kv", "clause":
 		out = append(out, []interface{}{"eq", w.Fields[0][0], w.Fields[0][1]})
 	case "raw":
@@ -528,9 +544,7 @@ func (w *W16) condsJ() []interface{} {
 		for i := range w.Sub {
 			l = append(l, w.Sub[i].condsJ()...)
 		}
-		if len(l) > 0 {
-			out = append(out, []interface{}{"and", l})
-		}
+		return andJ(l)
 	}
 	if out == nil {
 		out = []interface{}{}
@@ -905,6 +919,7 @@ func tieSuite(r *Result, rng *rand.Rand, tier string) {
 			r.Case("tie", p.key(), p.collides())
 			r.H("tie.finisher", p.Fin.K)
 			r.H("tie.outcome", p.Fin.K+"/"+outcome16(p, real))
+			r.H("tie.model_branch", branch16(p))
 			r.H("tie.chain_len", fmt.Sprint(len(p.Steps)))
 			r.H("tie.table_rows", fmt.Sprint(len(p.Rows)))
 			if p.f3Pattern() {
@@ -922,6 +937,68 @@ func tieSuite(r *Result, rng *rand.Rand, tier string) {
 		}
 	}
 	flush()
+}
+
+// branch16 names the model branch the program exercises (computed from the input alone)
+func branch16(p *P16) string {
+	t := newRef16(p.Soft, p.Rows)
+	switch p.Fin.K {
+	case "save":
+		k := p.Fin.Row[0]
+		if k == 0 {
+			return "save/zero-key-insert"
+		}
+		old, ok := t.rows[k]
+		switch {
+		case !ok:
+			return "save/absent-upsert-inserts"
+		case t.live(old):
+			return "save/live-update-all"
+		}
+		return "save/soft-deleted-upsert-updates"
+	case "create":
+		rule := "norule"
+		for _, s := range p.Steps {
+			if s.K == "oc" {
+				rule = s.Rule.Kind
+			}
+		}
+		k := p.Fin.Row[0]
+		if _, ok := t.rows[k]; ok {
+			if p.Soft && t.rows[k][c16Deleted] != 0 {
+				return "create/conflict-softdeleted-" + rule
+			}
+			return "create/conflict-" + rule
+		}
+		if k == 0 {
+			return "create/zero-key-" + rule
+		}
+		return "create/absent-" + rule
+	}
+	hasAttrs, hasAssign := false, false
+	for _, s := range p.Steps {
+		if s.K == "attrs" {
+			hasAttrs = s.Init != nil
+		}
+		if s.K == "assign" {
+			hasAssign = s.Init != nil
+		}
+	}
+	exp := refRun(p)
+	b := p.Fin.K + "/miss"
+	if exp.hit {
+		b = p.Fin.K + "/hit"
+	}
+	if exp.Err != "ok" {
+		b = p.Fin.K + "/miss-unique"
+	}
+	if hasAttrs {
+		b += "+attrs"
+	}
+	if hasAssign {
+		b += "+assign"
+	}
+	return b
 }
 
 func outcome16(p *P16, o realOut) string {
@@ -1133,6 +1210,7 @@ func refRun(p *P16) O16 {
 	}
 	var rec []int
 	errc := "ok"
+	wasHit := false
 	switch p.Fin.K {
 	case "save":
 		rec, errc = t.save(p.Fin.Row)
@@ -1153,6 +1231,7 @@ func refRun(p *P16) O16 {
 				break
 			}
 		}
+		wasHit = hit != nil
 		if hit != nil {
 			rec = append([]int(nil), hit...)
 			assigns.apply(rec)
@@ -1171,7 +1250,7 @@ func refRun(p *P16) O16 {
 			}
 		}
 	}
-	return O16{Rows: t.dump(), Val: rec, Err: errc}
+	return O16{Rows: t.dump(), Val: rec, Err: errc, hit: wasHit}
 }
 
 func maskTS(r []int) []int {
@@ -1291,6 +1370,7 @@ func e2eSuite(r *Result, rng *rand.Rand, tier string) {
 				if vi == 0 {
 					r.H("e2e.finisher", p.Fin.K)
 					r.H("e2e.expected", p.Fin.K+"/"+expOutcome(p, exp))
+					r.H("e2e.branch", branch16(p))
 					r.H("e2e.variants", fmt.Sprint(len(variants)))
 					for _, s := range p.Steps {
 						switch s.K {
@@ -1339,7 +1419,7 @@ func expOutcome(p *P16, exp O16) string {
 		return "updated"
 	}
 	if p.Fin.K == "foi" || p.Fin.K == "foc" {
-		if len(exp.Val) > 0 && exp.Val[0] != 0 {
+		if exp.hit {
 			return "hit"
 		}
 		return "miss"
